@@ -163,6 +163,11 @@ func precisEmail(addr string, profile *precis.Profile) (string, error) {
 		return "", fmt.Errorf("address: precis: %w", err)
 	}
 
+	// The only valid address without the domain part is "postmaster".
+	if domain == "" {
+		return mbox, nil
+	}
+
 	domain, err = dns.ForLookup(domain)
 	if err != nil {
 		return "", fmt.Errorf("address: precis: %w", err)
